@@ -31,13 +31,13 @@ set_option maxHeartbeats 8000000 in
 /-- for non-zero `from`, `to` (the only inputs the property speaks about) the extracted decision tree of `Quat::setRotation (from, to)`
 IS the documented case analysis `quatSetRotationSpec`: angle ≤ π/2 — one half-way quaternion; larger — product of two;
 `|from^ + to^|² ≤ (8ε)²`, i.e. opposite to within rounding — half-turn about an axis ⟂ `from` -/
-theorem quatSetRotation_spec (tmin teps : α) (sqrt : α → α) (q : Quat α) (fromDir toDir : V3 α)
-    (h1 : Gen.V3.length tmin sqrt fromDir ≠ 0) (h2 : Gen.V3.length tmin sqrt toDir ≠ 0) :
-    Gen.Frame.quatSetRotation tmin teps sqrt q fromDir toDir = quatSetRotationSpec (Gen.V3.length tmin sqrt) teps fromDir toDir := by
+theorem quatSetRotation_spec (tmin tmax teps : α) (sqrt : α → α) (q : Quat α) (fromDir toDir : V3 α)
+    (h1 : Gen.V3.length tmin tmax sqrt fromDir ≠ 0) (h2 : Gen.V3.length tmin tmax sqrt toDir ≠ 0) :
+    Gen.Frame.quatSetRotation tmin tmax teps sqrt q fromDir toDir = quatSetRotationSpec (Gen.V3.length tmin tmax sqrt) teps fromDir toDir := by
   obtain ⟨fx, fy, fz⟩ := fromDir
   obtain ⟨tx, ty, tz⟩ := toDir
   simp only [Gen.Frame.quatSetRotation, quatSetRotationSpec, qInternal, qOppositeAxis, qmul, nrm, cross, dot, vadd]
-  generalize Gen.V3.length tmin sqrt = len at h1 h2 ⊢
+  generalize Gen.V3.length tmin tmax sqrt = len at h1 h2 ⊢
   simp only [h1, h2, if_true, if_false]
   generalize fx / len ⟨fx, fy, fz⟩ = a1
   generalize fy / len ⟨fx, fy, fz⟩ = a2
@@ -65,65 +65,65 @@ theorem quatToMatrix44_spec (q : Quat α) : Gen.Frame.quatToMatrix44 q = quatM44
   congr 1 <;> ring1
 
 /-- `rotationMatrix (from, to)` for non-zero `from`, `to`: the documented case analysis, as a matrix -/
-theorem rotationMatrix_spec (tmin teps : α) (sqrt : α → α) (hlen : LenSpec (Gen.V3.length tmin sqrt)) (fromDir toDir : V3 α)
+theorem rotationMatrix_spec (tmin tmax teps : α) (sqrt : α → α) (hlen : LenSpec (Gen.V3.length tmin tmax sqrt)) (fromDir toDir : V3 α)
     (hf : fromDir ≠ ⟨0, 0, 0⟩) (ht : toDir ≠ ⟨0, 0, 0⟩) :
-    Gen.Frame.rotationMatrix tmin teps sqrt fromDir toDir = rotationMatrixSpec (Gen.V3.length tmin sqrt) teps fromDir toDir := by
+    Gen.Frame.rotationMatrix tmin tmax teps sqrt fromDir toDir = rotationMatrixSpec (Gen.V3.length tmin tmax sqrt) teps fromDir toDir := by
   unfold rotationMatrixSpec
-  rw [← quatSetRotation_spec tmin teps sqrt ⟨1, ⟨0, 0, 0⟩⟩ fromDir toDir (len_ne_zero hlen hf) (len_ne_zero hlen ht),
+  rw [← quatSetRotation_spec tmin tmax teps sqrt ⟨1, ⟨0, 0, 0⟩⟩ fromDir toDir (len_ne_zero hlen hf) (len_ne_zero hlen ht),
     ← quatToMatrix44_spec]
   obtain ⟨fx, fy, fz⟩ := fromDir
   obtain ⟨tx, ty, tz⟩ := toDir
   simp only [Gen.Frame.rotationMatrix, Gen.Frame.quatToMatrix44]
 
 /-- non-zero directions at an angle ≤ π/2: orthonormal, right-handed, no translation, takes `from^` to `to^` -/
-theorem rotationMatrix_acute (tmin teps : α) (sqrt : α → α) (hlen : LenSpec (Gen.V3.length tmin sqrt)) (fromDir toDir : V3 α)
+theorem rotationMatrix_acute (tmin tmax teps : α) (sqrt : α → α) (hlen : LenSpec (Gen.V3.length tmin tmax sqrt)) (fromDir toDir : V3 α)
     (hf : fromDir ≠ ⟨0, 0, 0⟩) (ht : toDir ≠ ⟨0, 0, 0⟩)
-    (hd : 0 ≤ dot (nrm (Gen.V3.length tmin sqrt) fromDir) (nrm (Gen.V3.length tmin sqrt) toDir)) :
-    IsFrame (Gen.Frame.rotationMatrix tmin teps sqrt fromDir toDir) ∧ row3 (Gen.Frame.rotationMatrix tmin teps sqrt fromDir toDir) = ⟨0, 0, 0⟩ ∧
-      (nrm (Gen.V3.length tmin sqrt) fromDir).toVec ᵥ* rot3 (Gen.Frame.rotationMatrix tmin teps sqrt fromDir toDir)
-        = (nrm (Gen.V3.length tmin sqrt) toDir).toVec := by
-  rw [rotationMatrix_spec tmin teps sqrt hlen fromDir toDir hf ht]; exact rotationMatrixSpec_acute hlen teps hf ht hd
+    (hd : 0 ≤ dot (nrm (Gen.V3.length tmin tmax sqrt) fromDir) (nrm (Gen.V3.length tmin tmax sqrt) toDir)) :
+    IsFrame (Gen.Frame.rotationMatrix tmin tmax teps sqrt fromDir toDir) ∧ row3 (Gen.Frame.rotationMatrix tmin tmax teps sqrt fromDir toDir) = ⟨0, 0, 0⟩ ∧
+      (nrm (Gen.V3.length tmin tmax sqrt) fromDir).toVec ᵥ* rot3 (Gen.Frame.rotationMatrix tmin tmax teps sqrt fromDir toDir)
+        = (nrm (Gen.V3.length tmin tmax sqrt) toDir).toVec := by
+  rw [rotationMatrix_spec tmin tmax teps sqrt hlen fromDir toDir hf ht]; exact rotationMatrixSpec_acute hlen teps hf ht hd
 /-- exactly opposite directions: a half-turn about an axis perpendicular to `from`; takes `from^` to `to^ = −from^` -/
-theorem rotationMatrix_opposite (tmin teps : α) (sqrt : α → α) (hlen : LenSpec (Gen.V3.length tmin sqrt)) (fromDir toDir : V3 α)
+theorem rotationMatrix_opposite (tmin tmax teps : α) (sqrt : α → α) (hlen : LenSpec (Gen.V3.length tmin tmax sqrt)) (fromDir toDir : V3 α)
     (hf : fromDir ≠ ⟨0, 0, 0⟩) (ht : toDir ≠ ⟨0, 0, 0⟩)
-    (hopp : vadd (nrm (Gen.V3.length tmin sqrt) fromDir) (nrm (Gen.V3.length tmin sqrt) toDir) = ⟨0, 0, 0⟩) :
-    IsFrame (Gen.Frame.rotationMatrix tmin teps sqrt fromDir toDir) ∧ row3 (Gen.Frame.rotationMatrix tmin teps sqrt fromDir toDir) = ⟨0, 0, 0⟩ ∧
-      (nrm (Gen.V3.length tmin sqrt) fromDir).toVec ᵥ* rot3 (Gen.Frame.rotationMatrix tmin teps sqrt fromDir toDir)
-        = (nrm (Gen.V3.length tmin sqrt) toDir).toVec := by
-  rw [rotationMatrix_spec tmin teps sqrt hlen fromDir toDir hf ht]; exact rotationMatrixSpec_opposite hlen teps hf ht hopp
+    (hopp : vadd (nrm (Gen.V3.length tmin tmax sqrt) fromDir) (nrm (Gen.V3.length tmin tmax sqrt) toDir) = ⟨0, 0, 0⟩) :
+    IsFrame (Gen.Frame.rotationMatrix tmin tmax teps sqrt fromDir toDir) ∧ row3 (Gen.Frame.rotationMatrix tmin tmax teps sqrt fromDir toDir) = ⟨0, 0, 0⟩ ∧
+      (nrm (Gen.V3.length tmin tmax sqrt) fromDir).toVec ᵥ* rot3 (Gen.Frame.rotationMatrix tmin tmax teps sqrt fromDir toDir)
+        = (nrm (Gen.V3.length tmin tmax sqrt) toDir).toVec := by
+  rw [rotationMatrix_spec tmin tmax teps sqrt hlen fromDir toDir hf ht]; exact rotationMatrixSpec_opposite hlen teps hf ht hopp
 /-- opposite to within `|from^ + to^|² ≤ (8ε)²`: still an exact half-turn (orthonormal, right-handed); it takes `from^` to `−from^`,
 which differs from `to^` by at most `8ε` in norm -/
-theorem rotationMatrix_nearOpposite (tmin teps : α) (sqrt : α → α) (hlen : LenSpec (Gen.V3.length tmin sqrt)) (fromDir toDir : V3 α)
+theorem rotationMatrix_nearOpposite (tmin tmax teps : α) (sqrt : α → α) (hlen : LenSpec (Gen.V3.length tmin tmax sqrt)) (fromDir toDir : V3 α)
     (hf : fromDir ≠ ⟨0, 0, 0⟩) (ht : toDir ≠ ⟨0, 0, 0⟩)
-    (hd : dot (nrm (Gen.V3.length tmin sqrt) fromDir) (nrm (Gen.V3.length tmin sqrt) toDir) < 0)
-    (hopp : dot (vadd (nrm (Gen.V3.length tmin sqrt) fromDir) (nrm (Gen.V3.length tmin sqrt) toDir))
-                (vadd (nrm (Gen.V3.length tmin sqrt) fromDir) (nrm (Gen.V3.length tmin sqrt) toDir)) ≤ (8 * teps) * (8 * teps)) :
-    IsFrame (Gen.Frame.rotationMatrix tmin teps sqrt fromDir toDir) ∧ row3 (Gen.Frame.rotationMatrix tmin teps sqrt fromDir toDir) = ⟨0, 0, 0⟩ ∧
-      (nrm (Gen.V3.length tmin sqrt) fromDir).toVec ᵥ* rot3 (Gen.Frame.rotationMatrix tmin teps sqrt fromDir toDir)
-        = (vneg (nrm (Gen.V3.length tmin sqrt) fromDir)).toVec := by
-  rw [rotationMatrix_spec tmin teps sqrt hlen fromDir toDir hf ht]; exact rotationMatrixSpec_nearOpposite hlen teps hf ht hd hopp
+    (hd : dot (nrm (Gen.V3.length tmin tmax sqrt) fromDir) (nrm (Gen.V3.length tmin tmax sqrt) toDir) < 0)
+    (hopp : dot (vadd (nrm (Gen.V3.length tmin tmax sqrt) fromDir) (nrm (Gen.V3.length tmin tmax sqrt) toDir))
+                (vadd (nrm (Gen.V3.length tmin tmax sqrt) fromDir) (nrm (Gen.V3.length tmin tmax sqrt) toDir)) ≤ (8 * teps) * (8 * teps)) :
+    IsFrame (Gen.Frame.rotationMatrix tmin tmax teps sqrt fromDir toDir) ∧ row3 (Gen.Frame.rotationMatrix tmin tmax teps sqrt fromDir toDir) = ⟨0, 0, 0⟩ ∧
+      (nrm (Gen.V3.length tmin tmax sqrt) fromDir).toVec ᵥ* rot3 (Gen.Frame.rotationMatrix tmin tmax teps sqrt fromDir toDir)
+        = (vneg (nrm (Gen.V3.length tmin tmax sqrt) fromDir)).toVec := by
+  rw [rotationMatrix_spec tmin tmax teps sqrt hlen fromDir toDir hf ht]; exact rotationMatrixSpec_nearOpposite hlen teps hf ht hd hopp
 /- FULL statement for the remaining case (angle > π/2, `|from^ + to^|² > (8ε)²`): as `rotationMatrix_acute`, i.e. orthonormal right-handed
    AND `from^ ᵥ* R = to^`.  Proved below: orthonormal, right-handed, affine, no translation (product of two unit quaternions).
    MISSING: `from^ ᵥ* R = to^` for this branch — it needs `M(q₁q₂) = M(q₂)M(q₁)` together with the fact that the two half rotations
    share their axis (nested normalisations); it is measured by the residue harness (`rotationMatrix.from->to`). -/
-theorem rotationMatrix_obtuse_partial (tmin teps : α) (sqrt : α → α) (hlen : LenSpec (Gen.V3.length tmin sqrt)) (fromDir toDir : V3 α)
+theorem rotationMatrix_obtuse_partial (tmin tmax teps : α) (sqrt : α → α) (hlen : LenSpec (Gen.V3.length tmin tmax sqrt)) (fromDir toDir : V3 α)
     (hf : fromDir ≠ ⟨0, 0, 0⟩) (ht : toDir ≠ ⟨0, 0, 0⟩)
-    (hd : dot (nrm (Gen.V3.length tmin sqrt) fromDir) (nrm (Gen.V3.length tmin sqrt) toDir) < 0)
-    (hbig : (8 * teps) * (8 * teps) < dot (vadd (nrm (Gen.V3.length tmin sqrt) fromDir) (nrm (Gen.V3.length tmin sqrt) toDir))
-                (vadd (nrm (Gen.V3.length tmin sqrt) fromDir) (nrm (Gen.V3.length tmin sqrt) toDir))) :
-    IsFrame (Gen.Frame.rotationMatrix tmin teps sqrt fromDir toDir) ∧ row3 (Gen.Frame.rotationMatrix tmin teps sqrt fromDir toDir) = ⟨0, 0, 0⟩ := by
-  rw [rotationMatrix_spec tmin teps sqrt hlen fromDir toDir hf ht]; exact rotationMatrixSpec_obtuse hlen teps hf ht hd hbig
+    (hd : dot (nrm (Gen.V3.length tmin tmax sqrt) fromDir) (nrm (Gen.V3.length tmin tmax sqrt) toDir) < 0)
+    (hbig : (8 * teps) * (8 * teps) < dot (vadd (nrm (Gen.V3.length tmin tmax sqrt) fromDir) (nrm (Gen.V3.length tmin tmax sqrt) toDir))
+                (vadd (nrm (Gen.V3.length tmin tmax sqrt) fromDir) (nrm (Gen.V3.length tmin tmax sqrt) toDir))) :
+    IsFrame (Gen.Frame.rotationMatrix tmin tmax teps sqrt fromDir toDir) ∧ row3 (Gen.Frame.rotationMatrix tmin tmax teps sqrt fromDir toDir) = ⟨0, 0, 0⟩ := by
+  rw [rotationMatrix_spec tmin tmax teps sqrt hlen fromDir toDir hf ht]; exact rotationMatrixSpec_obtuse hlen teps hf ht hd hbig
 /-- hence for ALL non-zero `from`, `to` (parallel, opposite and nearly opposite included) and every `teps`: an orthonormal right-handed
 frame without translation -/
-theorem rotationMatrix_frame (tmin teps : α) (sqrt : α → α) (hlen : LenSpec (Gen.V3.length tmin sqrt)) (fromDir toDir : V3 α)
+theorem rotationMatrix_frame (tmin tmax teps : α) (sqrt : α → α) (hlen : LenSpec (Gen.V3.length tmin tmax sqrt)) (fromDir toDir : V3 α)
     (hf : fromDir ≠ ⟨0, 0, 0⟩) (ht : toDir ≠ ⟨0, 0, 0⟩) :
-    IsFrame (Gen.Frame.rotationMatrix tmin teps sqrt fromDir toDir) ∧ row3 (Gen.Frame.rotationMatrix tmin teps sqrt fromDir toDir) = ⟨0, 0, 0⟩ := by
-  by_cases hd : 0 ≤ dot (nrm (Gen.V3.length tmin sqrt) fromDir) (nrm (Gen.V3.length tmin sqrt) toDir)
-  · exact ⟨(rotationMatrix_acute tmin teps sqrt hlen fromDir toDir hf ht hd).1, (rotationMatrix_acute tmin teps sqrt hlen fromDir toDir hf ht hd).2.1⟩
-  · by_cases hbig : (8 * teps) * (8 * teps) < dot (vadd (nrm (Gen.V3.length tmin sqrt) fromDir) (nrm (Gen.V3.length tmin sqrt) toDir))
-        (vadd (nrm (Gen.V3.length tmin sqrt) fromDir) (nrm (Gen.V3.length tmin sqrt) toDir))
-    · exact rotationMatrix_obtuse_partial tmin teps sqrt hlen fromDir toDir hf ht (not_le.mp hd) hbig
-    · have h := rotationMatrix_nearOpposite tmin teps sqrt hlen fromDir toDir hf ht (not_le.mp hd) (not_lt.mp hbig)
+    IsFrame (Gen.Frame.rotationMatrix tmin tmax teps sqrt fromDir toDir) ∧ row3 (Gen.Frame.rotationMatrix tmin tmax teps sqrt fromDir toDir) = ⟨0, 0, 0⟩ := by
+  by_cases hd : 0 ≤ dot (nrm (Gen.V3.length tmin tmax sqrt) fromDir) (nrm (Gen.V3.length tmin tmax sqrt) toDir)
+  · exact ⟨(rotationMatrix_acute tmin tmax teps sqrt hlen fromDir toDir hf ht hd).1, (rotationMatrix_acute tmin tmax teps sqrt hlen fromDir toDir hf ht hd).2.1⟩
+  · by_cases hbig : (8 * teps) * (8 * teps) < dot (vadd (nrm (Gen.V3.length tmin tmax sqrt) fromDir) (nrm (Gen.V3.length tmin tmax sqrt) toDir))
+        (vadd (nrm (Gen.V3.length tmin tmax sqrt) fromDir) (nrm (Gen.V3.length tmin tmax sqrt) toDir))
+    · exact rotationMatrix_obtuse_partial tmin tmax teps sqrt hlen fromDir toDir hf ht (not_le.mp hd) hbig
+    · have h := rotationMatrix_nearOpposite tmin tmax teps sqrt hlen fromDir toDir hf ht (not_le.mp hd) (not_lt.mp hbig)
       exact ⟨h.1, h.2.1⟩
 example : (⟨1, 0, 0⟩ : V3 ℝ) ≠ ⟨0, 0, 0⟩ ∧ (⟨-3, 1, 0⟩ : V3 ℝ) ≠ ⟨0, 0, 0⟩ := by constructor <;> simp
 
